@@ -307,7 +307,10 @@ class HTTPConnectionPool(ConnectionPool, RequestMethods):
         """
         if self.pool is not None:
             try:
-                self.pool.put(conn, block=False)
+                # Keep a reference to the queue: a concurrent close() may set
+                # self.pool to None while the queue.Full branch below runs.
+                pool = self.pool
+                pool.put(conn, block=False)
                 return  # Everything is dandy, done.
             except AttributeError:
                 # self.pool is None.
@@ -327,7 +330,7 @@ class HTTPConnectionPool(ConnectionPool, RequestMethods):
                 log.warning(
                     "Connection pool is full, discarding connection: %s. Connection pool size: %s",
                     self.host,
-                    self.pool.qsize(),
+                    pool.qsize(),
                 )
 
         # Connection never got put back into the pool, close it.
